@@ -3,7 +3,9 @@
 set -u
 cd "$(dirname "$0")/.."
 P=$1
-tools/mergeext.sh $P | tail -3 || { echo "merge of $P needs hands"; exit 1; }
+tools/mergeext.sh $P | tail -3
+python3 tools/resolve_main.py && git add lean/Main.lean lean/CnvVerif.lean
+U=$(git diff --name-only --diff-filter=U); if [ -n "$U" ]; then echo "UNRESOLVED: $U"; exit 1; fi
 /venv/bin/python tools/register.py > /var/tmp/register.out 2>&1 || { tail -5 /var/tmp/register.out; exit 1; }
 /venv/bin/python -m harness.translate --lock > /var/tmp/translate.out 2>&1 || { tail -5 /var/tmp/translate.out; exit 1; }
 python3 tools/dupnames.py 2>/dev/null | tail -3
